@@ -98,12 +98,20 @@ def countLive : List Bool → List (List Act) → Nat
   | e :: es, a :: as => (if e && !(inputs a).isEmpty then 1 else 0) + countLive es as
   | _, _ => 0
 
-/-- the oracle for a case: every request satisfies `holdsReq`; every request used one source id
-    for all its events (`sidConst`); when the requests were in flight at the same time (`conc`: the
-    harness holds every request at its last read until all have got there), those that made `In`
-    calls and got there used pairwise different source ids (`sidCount` distinct ids among them). -/
-def holds (conc : Bool) (qs : List Req) (ended : List Bool) (acts : List (List Act))
+/-- what the harness must report about source ids besides "one id per request":
+    mode 1 (free-running concurrent requests, all held at their last read until every one has got
+    there): the number of distinct ids among the requests that made `In` calls and got there — all
+    different; mode 2 (requests advanced park point by park point in a fixed order): 1 = no two
+    requests whose `In` calls interleave used the same id. -/
+def sidWant (mode : Nat) (ended : List Bool) (acts : List (List Act)) : Nat :=
+  if mode = 2 then 1 else countLive ended acts
+
+/-- the oracle for a case (mode 0 sequential, 1 concurrent, 2 scheduled overlap): every request
+    satisfies `holdsReq` — its own lines, in order, each once, then its 200, whatever the other
+    requests do; every request used one source id for all its events (`sidConst`); requests in
+    flight together used different ids (`sidWant`). -/
+def holds (mode : Nat) (qs : List Req) (ended : List Bool) (acts : List (List Act))
     (sidConst : Bool) (sidCount : Nat) : Bool :=
-  allReqs qs acts && sidConst && (!conc || sidCount == countLive ended acts)
+  allReqs qs acts && sidConst && (mode == 0 || sidCount == sidWant mode ended acts)
 
 end FileD.SpecC11
